@@ -278,7 +278,9 @@ def run_case(idx, rng, tier, ctx):
         return res
 
     flags = {'io_in_kernel': rng.random() < 0.3, 'mixed_case': rng.random() < 0.3, 'overlap': True,
-             'kinds_module': False, 'max_stmts': rng.choice([6, 12, 18])}
+             'kinds_module': False, 'max_stmts': rng.choice([6, 12, 18]),
+             # inline IF statements trigger a known mechanism (statement duplicated): exercised in a slice only
+             'inline_if': idx % 10 == 7}
     case = ProgGen(rng, flags).generate()
     src = case.units
     res['features'] = ['generated']
@@ -337,8 +339,12 @@ def run_case(idx, rng, tier, ctx):
             if e1 and d1['status'] in ('differ', 'new_build_fail'):
                 culprit = ed[0] + ('-inplace' if ed[2] and ed[0] in ('delete', 'duplicate', 'replace_rhs', 'replace_rhs_clone') else '')
                 break
+        kinds = sorted({e.split()[0] for e in edits})
         if culprit is None:
-            culprit = 'combination:' + '+'.join(sorted({e.split()[0] for e in edits}))
+            culprit = kinds[0] if len(kinds) == 1 else 'combination:' + '+'.join(kinds)
+        if d['status'] == 'new_build_fail':
+            m = re.search(r'Error: (.{0,80})', d['detail'])
+            culprit = 'compiler-says:' + (re.sub(r'[^A-Za-z ]+', '', m.group(1)).strip().replace(' ', '-')[:50] if m else 'unknown')
         viol.append({'key': f'conservative:after-edit:{sym}:{culprit}', 'msg': f'{edits}: {d["detail"][:300]}',
                      'witness': {'source': src, 'plan': plan, 'edits': edits, 'conservative': con, 'regular': reg}})
     else:
